@@ -76,6 +76,7 @@ def _sequence_main(path):
         os.environ["TZ"] = _check.PROCESS_ZONES[(seed + gi) % len(_check.PROCESS_ZONES)]   # as stage B did
         time.tzset()
         rng = random.Random((seed * 1000003) ^ _check.hash_str(spec["group"]))
+        common.set_convention_rng(random.Random((seed * 7919) ^ _check.hash_str(spec["group"]) ^ 0xC0117))
         count = 0
         for c in gen(rng, n, tier):
             count += 1
@@ -704,9 +705,17 @@ def _c17_episode(rng, steps):
                   rng.choice(corr_geo.COORDS[:6]))
         if "," in fields[0] or fields[0].startswith("#") or fields[0] != fields[0].strip():
             continue
-        form = rng.randint(0, 5)
+        form = rng.randint(0, 6)
         extra = None
-        if form == 5:
+        if form == 6:
+            # ONE list holding two field tuples (usually of different time-zone groups)
+            f2 = corr_geo.rand_item(rng, None)
+            f2 = (f2[0], f2[1], f2[2], rng.choice(corr_geo.COORDS[:6]), rng.choice(corr_geo.COORDS[:6]))
+            if "," in f2[0] or f2[0].startswith("#") or f2[0] != f2[0].strip():
+                continue
+            extra = f2
+            val = [tuple(fields), list(f2)] if rng.random() < 0.5 else [list(fields), tuple(f2)]
+        elif form == 5:
             # a field tuple (or list) whose coordinates are numbers, not text
             la, lo = rng.choice([12.5, -33, 0, 89.75]), rng.choice([-100.25, 77, 179.5, 0.0])
             fields = (fields[0], fields[1], fields[2], la, lo)
@@ -727,7 +736,7 @@ def _c17_episode(rng, steps):
                 continue
             extra = f2
             val = "# two records\n" + ",".join(fields) + "\n\n" + ",".join(f2) + "\n"
-        elif form != 5:
+        elif form not in (5, 6):
             val = ",".join(fields) if form == 0 else ([",".join(fields)] if form == 1 else [tuple(fields)])
         history.append(repr(val))
         try:
@@ -806,6 +815,28 @@ def _c17_episode(rng, steps):
         if sorted((x.name, x.region, x.timezone) for l in res.values() for x in l) != sorted(groups[g]):
             return {"clause": "the group holds exactly the records of that time-zone group",
                     "query": g, "history": history}
+    # the documented parameter names work as keywords and mean the same as the positional call
+    if log:
+        n, r, t = rng.choice(log)
+        g = _san(t.split("/", 1)[0])
+        if _san(n) not in groups and n.strip("\"'") == n and g in groups:
+            for label, kwc, posc in (
+                    ("lookup(name=, db=)", lambda: geo.lookup(name=n, db=db), lambda: geo.lookup(n, db)),
+                    ("group(region=, db=)", lambda: geo.group(region=g, db=db), lambda: geo.group(g, db)),
+                    ("lookup_in_group(location=, group=)",
+                     lambda: geo.lookup_in_group(location=n, group=geo.group(g, db)),
+                     lambda: geo.lookup_in_group(n, geo.group(g, db))),
+                    ("all_locations(db=)", lambda: len(list(geo.all_locations(db=db))),
+                     lambda: len(list(geo.all_locations(db))))):
+                def _any(f):
+                    try:
+                        return ("ok", f())
+                    except Exception as exc:  # noqa: BLE001
+                        return ("err", "%s: %s" % (type(exc).__name__, str(exc)[:60]))
+                ra, rb = _any(kwc), _any(posc)
+                if ra[0] != rb[0] or (ra[0] == "ok" and ra[1] is not rb[1] and ra[1] != rb[1]):
+                    return {"clause": "%s with the documented keywords gives %s, the positional call %s" % (
+                        label, str(ra)[:120], str(rb)[:120]), "history": history}
     global _C17_SCANNED
     if builtin and not _C17_SCANNED:
         _C17_SCANNED = True
@@ -1314,11 +1345,68 @@ def _c04_reuse(seed):
     return None
 
 
+def _c04_spellings(seed):
+    """whether an event is returned or a ValueError raised does not depend on how the request is
+    spelled: positionally, by the documented keywords, or with the date left out while the clock
+    shows that date — near the polar circles, where the outcomes differ from day to day"""
+    import zoneinfo
+    import astral.sun as sun
+    from astral import Observer
+    import corr_norm
+    rng = random.Random(seed)
+    lat = rng.choice([1, -1]) * rng.uniform(58.0, 72.0)
+    lon = rng.uniform(-180, 180)
+    o = Observer(lat, lon)
+    d = datetime.date(rng.randint(1950, 2080), rng.choice([5, 6, 7, 11, 12, 1]), rng.randint(1, 28))
+    name = rng.choice(["Asia/Tokyo", "Pacific/Auckland", "America/Anchorage", "Europe/Oslo", "UTC"])
+    tz = zoneinfo.ZoneInfo(name)
+    dep = rng.choice([2.0, 6, 12, 18.0])
+    # a clock reading on that date in the zone, away from its midnight
+    now = datetime.datetime(d.year, d.month, d.day, 12, 0, tzinfo=tz).astimezone(datetime.timezone.utc)
+    forms = [
+        ("dawn", lambda: sun.dawn(o, d, dep, tz), lambda: sun.dawn(observer=o, date=d, depression=dep, tzinfo=tz),
+         lambda: sun.dawn(o, depression=dep, tzinfo=tz)),
+        ("dusk", lambda: sun.dusk(o, d, dep, tz), lambda: sun.dusk(observer=o, date=d, depression=dep, tzinfo=tz),
+         lambda: sun.dusk(o, depression=dep, tzinfo=tz)),
+        ("sunrise", lambda: sun.sunrise(o, d, tz), lambda: sun.sunrise(observer=o, date=d, tzinfo=tz),
+         lambda: sun.sunrise(o, tzinfo=tz)),
+        ("sunset", lambda: sun.sunset(o, d, tz), lambda: sun.sunset(observer=o, date=d, tzinfo=tz),
+         lambda: sun.sunset(o, tzinfo=tz)),
+        ("sun", lambda: sun.sun(o, d, dep, tz),
+         lambda: sun.sun(observer=o, date=d, dawn_dusk_depression=dep, tzinfo=tz),
+         lambda: sun.sun(o, dawn_dusk_depression=dep, tzinfo=tz)),
+    ]
+
+    def _any(f):
+        try:
+            return ("ok", f())
+        except Exception as exc:  # noqa: BLE001
+            return ("err", "%s: %s" % (type(exc).__name__, str(exc)[:70]))
+    for label, pos, kw, omitted in forms:
+        a, b = _any(pos), _any(kw)
+        with corr_norm.FrozenClock(now):
+            c = _any(omitted)
+        if a != b:
+            return {"clause": "%s for %s: positional call %s, the same call by documented keywords %s" % (
+                label, d, str(a)[:150], str(b)[:150]), "spell_seed": seed}
+        if a != c:
+            return {"clause": "%s for %s: with the date given %s, with the date omitted at clock reading %s %s" % (
+                label, d, str(a)[:150], now.isoformat(), str(c)[:150]), "spell_seed": seed}
+    return None
+
+
 def search_C04(rng, deadline, broken):
     import gens
     n = 0
     while time.time() < deadline:
         n += 1
+        if n % 4 == 1:
+            try:
+                r = _c04_spellings(rng.randrange(1 << 40))
+            except Exception:  # noqa: BLE001
+                r = None
+            if r:
+                return r
         if n % 3 == 0:
             r = _c04_reuse(rng.randrange(1 << 40))
             if r:
@@ -1339,6 +1427,8 @@ def search_C04(rng, deadline, broken):
 
 
 def replay_C04(fi):
+    if "spell_seed" in fi:
+        return _c04_spellings(fi["spell_seed"]) is None
     if "reuse_seed" in fi:
         return _c04_reuse(fi["reuse_seed"]) is None
     return _c04_one(_obs_from_descr(fi["observer"]), datetime.date.fromisoformat(fi["date"]),
@@ -1833,12 +1923,56 @@ def _c14_sweep(seed):
     return None
 
 
+def _c14_omitted(seed):
+    """the date left out: today's date in the requested zone at the moment of the call — for the
+    plain functions and through a Location (local or UTC), at a clock reading where the zone's
+    date is not the UTC date"""
+    import zoneinfo
+    import astral.moon as moon
+    from astral import LocationInfo, Observer
+    from astral.location import Location
+    import corr_norm
+    rng = random.Random(seed)
+    name = rng.choice(["Pacific/Kiritimati", "Asia/Tokyo", "Pacific/Pago_Pago", "America/Adak", "Pacific/Auckland"])
+    tz = zoneinfo.ZoneInfo(name)
+    lat, lon = rng.uniform(-55, 55), rng.uniform(-180, 180)
+    d = datetime.date.fromordinal(rng.randint(693596 + 400, 767010 - 400))
+    hh = rng.choice([0, 1, 2, 9, 10, 11, 12, 13, 21, 22, 23])
+    now = datetime.datetime(d.year, d.month, d.day, hh, rng.randint(0, 59), tzinfo=datetime.timezone.utc)
+    today_z = now.astimezone(tz).date()
+    o = Observer(lat, lon)
+    loc = Location(LocationInfo("n", "r", name, lat, lon))
+    for which in ("moonrise", "moonset"):
+        f = getattr(moon, which)
+        pairs = [("%s(observer, tzinfo=%s)" % (which, name), lambda: f(o, tzinfo=tz), lambda: f(o, today_z, tz)),
+                 ("Location.%s()" % which, lambda: getattr(loc, which)(), lambda: f(o, today_z, tz)),
+                 ("Location.%s(local=False)" % which, lambda: getattr(loc, which)(local=False),
+                  lambda: f(o, now.date(), datetime.timezone.utc))]
+        for label, a, b in pairs:
+            with corr_norm.FrozenClock(now):
+                ra = _try(a)
+            rb = _try(b)
+            if ra != rb:
+                return {"clause": "%s with the date omitted at clock reading %s gives %s; for today's date there "
+                                  "(%s in the zone, %s in UTC) the answer is %s" % (
+                                      label, now.isoformat(), ra, today_z, now.date(), rb),
+                        "omitted_seed": seed}
+    return None
+
+
 def search_C14(rng, deadline, broken):
     import gens
     import zones
     n = 0
     while time.time() < deadline:
         n += 1
+        if n % 10 == 3:
+            try:
+                r = _c14_omitted(rng.randrange(1 << 40))
+            except Exception as exc:  # noqa: BLE001
+                r = None
+            if r:
+                return r
         if n % 25 == 0:
             r = _c14_sweep(rng.randrange(1 << 40))
             if r:
@@ -1864,6 +1998,8 @@ def search_C14(rng, deadline, broken):
 
 
 def replay_C14(fi):
+    if "omitted_seed" in fi:
+        return _c14_omitted(fi["omitted_seed"]) is None
     if "sweep_seed" in fi:
         return _c14_sweep(fi["sweep_seed"]) is None
     return _c14_one(fi["latitude"], fi["longitude"], datetime.date.fromisoformat(fi["date"]),
@@ -2341,13 +2477,52 @@ def _c19_location(seed):
                          lambda: sun.sunset(o, want_d, tzx)),
                         ("noon", lambda: loc.noon(local=lcl), lambda: sun.noon(o0, want_d, tzx)),
                         ("golden_hour", lambda: loc.golden_hour(di, local=lcl, observer_elevation=elev),
-                         lambda: sun.golden_hour(o, want_d, di, tzx))):
+                         lambda: sun.golden_hour(o, want_d, di, tzx)),
+                        ("blue_hour", lambda: loc.blue_hour(di, local=lcl, observer_elevation=elev),
+                         lambda: sun.blue_hour(o, want_d, di, tzx)),
+                        ("dawn", lambda: loc.dawn(local=lcl, observer_elevation=elev),
+                         lambda: sun.dawn(o, want_d, loc.solar_depression, tzx)),
+                        ("dusk", lambda: loc.dusk(local=lcl, observer_elevation=elev),
+                         lambda: sun.dusk(o, want_d, loc.solar_depression, tzx)),
+                        ("sunrise", lambda: loc.sunrise(local=lcl, observer_elevation=elev),
+                         lambda: sun.sunrise(o, want_d, tzx)),
+                        ("midnight", lambda: loc.midnight(local=lcl), lambda: sun.midnight(o0, want_d, tzx)),
+                        ("daylight", lambda: loc.daylight(local=lcl, observer_elevation=elev),
+                         lambda: sun.daylight(o, want_d, tzx)),
+                        ("night", lambda: loc.night(local=lcl, observer_elevation=elev),
+                         lambda: sun.night(o, want_d, tzx)),
+                        ("twilight", lambda: loc.twilight(direction=di, local=lcl, observer_elevation=elev),
+                         lambda: sun.twilight(o, want_d, di, tzx)),
+                        ("rahukaalam", lambda: loc.rahukaalam(local=lcl, observer_elevation=elev),
+                         lambda: sun.rahukaalam(o, want_d, True, tzx)),
+                        ("time_at_elevation", lambda: loc.time_at_elevation(8.0, direction=di, local=lcl),
+                         lambda: sun.time_at_elevation(o0, 8.0, want_d, di, tzx)),
+                        ("moonrise", lambda: loc.moonrise(local=lcl), lambda: moon.moonrise(o0, want_d, tzx)),
+                        ("moonset", lambda: loc.moonset(local=lcl), lambda: moon.moonset(o0, want_d, tzx))):
                     ra, rb = _try(a), _try(b)
                     if ra != rb:
                         return {"clause": "Location.%s with the date omitted (local=%s) at clock reading %s gives "
                                           "%s, the library for today's date there (%s) gives %s" % (
                                               name, lcl, now.isoformat(), ra, want_d, rb),
                                 "seed": seed, "history": hist}
+    # a running clock that crosses the zone's midnight between the first and the second reading:
+    # the whole answer is for one date
+    ld = d + datetime.timedelta(days=1)
+    now5 = datetime.datetime(ld.year, ld.month, ld.day, tzinfo=zi).astimezone(datetime.timezone.utc) \
+        - datetime.timedelta(seconds=1)
+    for name, a, b in (
+            ("sun", lambda: loc.sun(observer_elevation=elev), lambda: sun.sun(o, d, loc.solar_depression, zi)),
+            ("daylight", lambda: loc.daylight(observer_elevation=elev), lambda: sun.daylight(o, d, zi)),
+            ("night", lambda: loc.night(observer_elevation=elev), lambda: sun.night(o, d, zi)),
+            ("golden_hour", lambda: loc.golden_hour(di, observer_elevation=elev),
+             lambda: sun.golden_hour(o, d, di, zi))):
+        with corr_norm.FrozenClock(now5, datetime.timedelta(seconds=3)):
+            ra = _try(a)
+        rb = _try(b)
+        if ra != rb:
+            return {"clause": "Location.%s with the date omitted while the clock runs from %s (one second before "
+                              "the location's midnight) gives %s; for that day (%s) the library gives %s" % (
+                                  name, now5.isoformat(), ra, d, rb), "seed": seed, "history": hist}
     return None
 
 
@@ -2541,6 +2716,24 @@ def _c09_one(seed):
                                         "offset change): %s, with today's date in the zone: %s" % (
                                             fn.__name__, now3.isoformat(), now3.astimezone(tz).isoformat(),
                                             name, a, b))
+    # a running clock: one second before the zone's midnight at the first reading, later at each
+    # further one — the answer is for ONE date, today at the moment of the call
+    ld = d + datetime.timedelta(days=1)
+    mid = datetime.datetime(ld.year, ld.month, ld.day, tzinfo=tz).astimezone(datetime.timezone.utc)
+    now4 = mid - datetime.timedelta(seconds=1)
+    for label, omitted, explicit in (
+            ("sun", lambda: sun.sun(o, tzinfo=tz), lambda: sun.sun(o, d, tzinfo=tz)),
+            ("daylight", lambda: sun.daylight(o, tzinfo=tz), lambda: sun.daylight(o, d, tz)),
+            ("night", lambda: sun.night(o, tzinfo=tz), lambda: sun.night(o, d, tz)),
+            ("twilight", lambda: sun.twilight(o, tzinfo=tz), lambda: sun.twilight(o, d, tzinfo=tz)),
+            ("golden_hour", lambda: sun.golden_hour(o, tzinfo=tz), lambda: sun.golden_hour(o, d, tzinfo=tz)),
+            ("rahukaalam", lambda: sun.rahukaalam(o, tzinfo=tz), lambda: sun.rahukaalam(o, d, tzinfo=tz))):
+        with corr_norm.FrozenClock(now4, datetime.timedelta(seconds=3)):
+            a = _try(omitted)
+        b = _try(explicit)
+        if a != b:
+            return ("%s with the date omitted while the clock runs from %s (one second before midnight in %s): "
+                    "%s; for that day's date: %s" % (label, now4.isoformat(), name, a, b))
     # a zone given as a user-defined tzinfo object with the same offsets as the named zone
     dz = _zones.docs(zs)
     for fn in (sun.sunrise, sun.sunset, sun.noon):
@@ -2706,6 +2899,36 @@ def _c20_types(o, d, z):
             ("moonrise" + lab, lambda znm=znm: moon.moonrise(o, d, znm), "optdt"),
             ("moonset" + lab, lambda znm=znm: moon.moonset(o, d, znm), "optdt"),
         ]
+    # every parameter passed by its documented name
+    lst += [
+        ("dawn(all keywords)", lambda: sun.dawn(observer=o, date=d, depression=6, tzinfo=tz), "dt"),
+        ("dusk(all keywords)", lambda: sun.dusk(observer=o, date=d, depression=12, tzinfo=tz), "dt"),
+        ("sunrise(all keywords)", lambda: sun.sunrise(observer=o, date=d, tzinfo=tz), "dt"),
+        ("sunset(all keywords)", lambda: sun.sunset(observer=o, date=d, tzinfo=tz), "dt"),
+        ("noon(all keywords)", lambda: sun.noon(observer=o, date=d, tzinfo=tz), "dt"),
+        ("midnight(all keywords)", lambda: sun.midnight(observer=o, date=d, tzinfo=tz), "dt"),
+        ("daylight(all keywords)", lambda: sun.daylight(observer=o, date=d, tzinfo=tz), "pair"),
+        ("night(all keywords)", lambda: sun.night(observer=o, date=d, tzinfo=tz), "pair"),
+        ("twilight(all keywords)",
+         lambda: sun.twilight(observer=o, date=d, direction=SunDirection.RISING, tzinfo=tz), "pair"),
+        ("golden_hour(all keywords)",
+         lambda: sun.golden_hour(observer=o, date=d, direction=SunDirection.SETTING, tzinfo=tz), "pair"),
+        ("blue_hour(all keywords)",
+         lambda: sun.blue_hour(observer=o, date=d, direction=SunDirection.SETTING, tzinfo=tz), "pair"),
+        ("rahukaalam(all keywords)", lambda: sun.rahukaalam(observer=o, date=d, daytime=False, tzinfo=tz), "pair"),
+        ("sun(all keywords)", lambda: sun.sun(observer=o, date=d, dawn_dusk_depression=12, tzinfo=tz), "dict"),
+        ("time_at_elevation(all keywords)",
+         lambda: sun.time_at_elevation(observer=o, elevation=5.0, date=d, direction=SunDirection.SETTING, tzinfo=tz,
+                                       with_refraction=False), "dt"),
+        ("elevation(all keywords)", lambda: sun.elevation(observer=o, dateandtime=dt, with_refraction=False), "float"),
+        ("zenith(all keywords)", lambda: sun.zenith(observer=o, dateandtime=dt, with_refraction=True), "float"),
+        ("azimuth(all keywords)", lambda: sun.azimuth(observer=o, dateandtime=dt), "float"),
+        ("moonrise(all keywords)", lambda: moon.moonrise(observer=o, date=d, tzinfo=tz), "optdt"),
+        ("moonset(all keywords)", lambda: moon.moonset(observer=o, date=d, tzinfo=tz), "optdt"),
+        ("moon.azimuth(all keywords)", lambda: moon.azimuth(observer=o, at=dt), "float"),
+        ("moon.elevation(all keywords)", lambda: moon.elevation(observer=o, at=dt), "float"),
+        ("phase(all keywords)", lambda: moon.phase(date=d), "float"),
+    ]
     # the same functions with the date omitted and the zone given by NAME (every accepted spelling
     # of the arguments has to reach the same documented outcomes)
     zn = "Pacific/Auckland"
